@@ -306,6 +306,16 @@ class TorchStyleDtype:
         return "torch." + self._n
 
 
+class QualifiedStyleDtype:
+    """repr is module-qualified with several dots, e.g. 'mlx.core.float32' (the documented escape hatch takes the tail after the LAST dot)"""
+
+    def __init__(self, name):
+        self._n = name
+
+    def __repr__(self):
+        return "mlx.core." + self._n
+
+
 class TFStyleDtype:
     """mimics the public surface of tf.DType without importing TensorFlow: .as_numpy_dtype (a numpy scalar type, or a one-field
     structured np.dtype instance for the quantised dtypes), .name, the is_* predicates, repr 'tf.float32'; no .type"""
@@ -422,6 +432,7 @@ def backends(d):
             yield "duck-str-Any", typing.Any, "typing.Any", Duck(d.canon), "import typing\n" + DUCK_SRC + f"x = Duck({d.canon!r})\n"
             if d.canon in TORCH_NAMES:
                 yield "duck-torchstyle", Duck, "Duck", Duck(TorchStyleDtype(d.canon)), TORCH_SRC + f"x = Duck(TorchDT({d.canon!r}))\n"
+                yield "duck-qualified-repr", Duck, "Duck", Duck(QualifiedStyleDtype(d.canon)), TORCH_SRC.replace("'torch.'", "'mlx.core.'") + f"x = Duck(TorchDT({d.canon!r}))\n"
             if d.canon in TFSTYLE_NAMES:
                 yield ("duck-tfstyle", Duck, "Duck", Duck(TFStyleDtype(d.canon, dt.type, d.kind)),
                        "import numpy as np, ml_dtypes\n" + TFS_SRC + f"x = Duck(TFDT({d.np_src}.type))\n")
